@@ -25,6 +25,8 @@ SIG_EMPTYPROG = "C02:comment-only program: ast_construction:EmptyProgramError on
 SIG_POSSTR = "C02:string literal containing `_pos=`: a feature regex captures a position inside the literal (span outside the listing)"
 SIG_HINTPATH = ("C02:label added by a hint (empty path) under the name of a feature that nesting SQL queries select from "
                 "(function:, loop:, ...): derived spans with start > end")
+SIG_DECOSCOPE = ("C02:comprehension inside a decorator: the scope of its variable mixes the `def` line of the decorated "
+                 "function with the decorator line (start > end)")
 PREREQ = set()  # names of the tables the SQL queries of spec.md select from (filled by run)
 
 
@@ -71,6 +73,8 @@ def classify_program(stored, raw):
     lines = raw.split("\n")
     if "_pos=" in stored:  # tested first: the decorated-async-def finding is repaired (d0d94f6), this one is open
         return SIG_POSSTR
+    if re.search(r"(?m)^\s*@.*\bfor\b.+\bin\b", stored):
+        return SIG_DECOSCOPE
     for m in re.finditer(r"(?i)#\s*paroxython\s*:\s*(.*)", raw):
         for tok in m.group(1).split():
             if not tok.startswith(("-", "...", "…")) and tok.lstrip("+").split(":")[0].rstrip(".…") in PREREQ:
@@ -275,7 +279,7 @@ STMTS = [
     ["with open(p) as h:", "    s = h.read()"], ["@dec", "def g():", "    pass"],
     ["@dec", "async def h():", "    await k()"], ["async def k():", "    pass"],
     ["z = [i * i for i in range(10) if i % 2]"], ["t = (", "    1,", "    2,", ")"],
-    ["s = '''a", "b'''"], ["lambda q: q"], ["assert x, 'm'"], ["print(\"_pos=7:1-\")"], ["x = b\"it's\""], ["d = {k: v for k, v in p}"],
+    ["s = '''a", "b'''"], ["lambda q: q"], ["assert x, 'm'"], ["print(\"_pos=7:1-\")"], ["@dec([q for q in range(3)])", "def g2():", "    pass"], ["x = b\"it's\""], ["d = {k: v for k, v in p}"],
     ["def r(n):", "    if n < 2:", "        return n", "    return r(n - 1) + r(n - 2)"],
     ["global_v: int = 3"], ["del x"], ["x = y = 0"], ["a, b = b, a"],
 ]
@@ -326,6 +330,32 @@ def gen_program(rng, real_programs):
     return text
 
 
+def as_file_bytes(rng, raw):
+    """The bytes of a program file as editors and platforms write them: LF, CRLF, CR-only (classic Mac), mixed line
+    ends, a stray CR inside a comment, a UTF-8 byte order mark, a PEP 263 coding cookie. Returns (variant, bytes)."""
+    variant = rng.choice(["lf"] * 5 + ["crlf", "crlf", "cr", "cr", "mixed", "stray-cr", "bom", "bom+crlf", "cookie", "cookie+cr"])
+    text = raw
+    if variant in ("crlf", "bom+crlf"):
+        text = text.replace("\n", "\r\n")
+    elif variant in ("cr", "cookie+cr"):
+        text = text.replace("\n", "\r")
+    elif variant == "mixed":
+        text = "".join(ch if ch != "\n" else rng.choice(["\n", "\r\n", "\r"]) for ch in text)
+    elif variant == "stray-cr":
+        lines = text.split("\n")
+        k = rng.randrange(len(lines))
+        if "paroxython" not in lines[k].lower() and "'" not in lines[k] and '"' not in lines[k]:
+            lines[k] += "  # a\rb"
+        text = "\n".join(lines)
+    if variant.startswith("cookie"):
+        nl = "\r" if variant == "cookie+cr" else "\n"
+        text = "# -*- coding: latin-1 -*-" + nl + text
+    data = text.encode("utf-8")
+    if variant.startswith("bom"):
+        data = b"\xef\xbb\xbf" + data
+    return variant, data
+
+
 def check_spans(ctx, drv, entry, stored, named_spans, raw, viol):
     """Evaluate the property predicate on every (name, span) of one program."""
     if stored == "":
@@ -370,7 +400,8 @@ def stream_tag_collect(ctx, impl, drv, real_programs):
     PREREQ.update(re.findall(r"(?:FROM|JOIN) t_(\w+)", "\n".join(impl.pp.ProgramParser().queries.values())))
     # two shapes reported on the unchanged code (findings F29, F30), always exercised
     programs = ["x = 1\ndef f(): # paroxython: function:a\n    return x\ndef h(): # paroxython: function:b\n    yield x\n",
-                "x = 1\nprint(\"_pos=99:x\")\n"]
+                "x = 1\nprint(\"_pos=99:x\")\n",
+                "@decorator([x for x in range(3)])\ndef f():\n    pass\n"]  # F34
     while len(programs) < n:
         t = gen_program(ctx.rng, real_programs)
         if t is not None and impl.admissible(t):
@@ -404,7 +435,9 @@ def stream_tag_collect(ctx, impl, drv, real_programs):
             d = root / f"{strategy}-{b}"
             d.mkdir()
             for k, raw in enumerate(batch):
-                (d / f"p{k:03d}.py").write_text(raw, encoding="utf-8")
+                variant, data = as_file_bytes(ctx.rng, raw) if raw.isascii() else ("lf", raw.encode("utf-8"))
+                ctx.dist(f"collect:file-bytes:{variant}")
+                (d / f"p{k:03d}.py").write_bytes(data)
             todo = [d]
             while todo:
                 cur = todo.pop()
@@ -425,7 +458,7 @@ def stream_tag_collect(ctx, impl, drv, real_programs):
                         todo.append(sub)
                     continue
                 for path, info in db.programs_infos.items():
-                    raw = (cur / path).read_text(encoding="utf-8")
+                    raw = (cur / path).read_bytes().decode("utf-8", "replace")  # the bytes as written (CR kept)
                     stored = info["source"]
                     ctx.count(f"collect:{strategy}", (strategy, raw), nontrivial=True)
                     named = [(nm, [[s[0], s[1]] for s in spans]) for nm, spans in info["labels"].items()]
